@@ -406,7 +406,7 @@ def gen(rng, tier):
         yield c
     # --- exact bytes of two unseeded commands nobody else owns: divide (files per alignment / group), identical -----
     from driver import cligen
-    for c in cligen.cases(rng, ['divide', 'identical'], 30 if quick else 300):
+    for c in cligen.cases(rng, ['divide', 'identical', 'nalign-phylip'], 30 if quick else 300):
         yield c
 
 
